@@ -1,3 +1,5 @@
 pub mod c19;
 pub mod c17;
 pub mod c09;
+pub mod c11;
+pub mod c12;
